@@ -854,6 +854,52 @@ fn stateright_crosscheck(alpha: &[X], max_len: usize) -> (usize, usize, usize) {
     (checker.unique_state_count(), expected, checker.discoveries().len())
 }
 
+/// long series (DESIGN 5.14): 1030 and 4100 elements through the sources and depth-1 / depth-2 pipelines, so that an
+/// iterator or collector that works in blocks is driven across its block boundaries
+fn long_recipes(thorough: bool, ctx: &mut Ctx) {
+    let fam = "long";
+    for len in if thorough { vec![300usize, 1030, 4100] } else { vec![1030] } {
+        let x: Vec<X> = (0..len).map(|i| if i % 7 == 3 || (i > 500 && i < 520) { None } else { Some(((i * 5) % 11) as f64 - 3.0) }).collect();
+        let d = Data::new(&x);
+        ctx.nontrivial("recipes", hash_bytes(format!("long{len}").as_bytes()));
+        let l = len as i32;
+        let sources = vec![
+            Src::Vec, Src::Deque(6), Src::Array, Src::View(-1), Src::View(2), Src::OptView, Src::Polars(vec![len / 2, len - len / 2]), Src::Polars(vec![1, len - 2, 1]),
+            Src::VDiff(1, None), Src::VDiff(-l + 1, Some(Some(7.0))), Src::VPct(3), Src::VPct(-1), Src::VPart(len / 2, true, false), Src::VPart(len + 1, false, true),
+            Src::VArgPart(16, true, false), Src::RollIter(40), Src::RollIter(len + 1), Src::Winsor(0, 0.1),
+        ];
+        for src in &sources {
+            let pol = polars_for(&d, src);
+            let st = match catch(|| forward_pass(source(&d, &pol, src))) {
+                Outcome::Ok(p) if !p.capped => p.items.len(),
+                _ => {
+                    check_recipe(fam, &d, &Recipe { src: src.clone(), ads: vec![] }, None, ctx);
+                    continue;
+                }
+            };
+            check_recipe(fam, &d, &Recipe { src: src.clone(), ads: vec![] }, None, ctx);
+            let mut ads = adaptors_reduced(len);
+            ads.extend([Ad::Shift(1024, 7.0), Ad::VShift(-1024, None), Ad::Shift(l - 1, 7.0), Ad::FfillMask0, Ad::Abs]);
+            for ad in &ads {
+                if matches!(ad, Ad::Bfill(_)) {
+                    continue;
+                }
+                check_recipe(fam, &d, &Recipe { src: src.clone(), ads: vec![ad.clone()] }, Some(st), ctx);
+            }
+            if matches!(src, Src::Vec | Src::Polars(_)) {
+                for a in &ads {
+                    for b in adaptors_reduced(len) {
+                        if matches!(a, Ad::Bfill(_)) {
+                            continue;
+                        }
+                        check_recipe(fam, &d, &Recipe { src: src.clone(), ads: vec![a.clone(), b] }, Some(st), ctx);
+                    }
+                }
+            }
+        }
+    }
+}
+
 fn main() {
     let run = Run::from_args("C09");
     let alpha: Vec<X> = vec![None, Some(-1.0), Some(0.0), Some(2.0)];
@@ -871,6 +917,8 @@ fn main() {
             for g in generators() {
                 check_generator(&g, &mut ctx);
             }
+        } else if stored["case"]["family"] == "long" {
+            long_recipes(true, &mut ctx);
         } else {
             check_word(&word, &alpha, max_depth, &mut ctx);
         }
@@ -887,6 +935,7 @@ fn main() {
     for src in generators() {
         check_generator(&src, &mut g);
     }
+    long_recipes(!run.quick(), &mut g);
     total.merge(g);
     // cross-check of the double-ended machine with the second engine (words up to length 3 / 4)
     let (sr_states, sr_expected, sr_disc) = stateright_crosscheck(&alpha, run.pick(3, 4));
